@@ -91,7 +91,8 @@ META = {
         "text": "Stretch.tla specifies the stretcher as a re-armed hold-off counter and states the property over the "
                 "ghost history of strobes (output high exactly in the N cycles starting at a strobe, one cycle later "
                 "when delayed); TLC proves the two formulations equal for every length 1..8, both delay settings and "
-                "every strobe pattern. The real stretch_strobe_signal logic (created output / supplied output+domain) "
+                "every strobe pattern. The real stretch_strobe_signal logic (no domain argument / explicit sync / another "
+                "domain clocked faster or slower than sync, output created / supplied; judged in the requested domain's cycles) "
                 "is driven for lengths 1..8 (and larger, non-power-of-two lengths) with TLC-simulated behaviours, "
                 "a re-trigger at every offset, held strobes and random strobe trains; every recorded cycle is "
                 "validated by TLC against the specification.",
@@ -197,7 +198,7 @@ def _stretch_stimuli(rng, n, quick):
         out.append(("train%d" % gap, [False] + ([True] + [False] * (gap - 1)) * 3 + tail))
     # random trains at several densities
     for p in ((0.5, 0.15, 0.05) if quick else (0.7, 0.5, 0.3, 0.15, 0.08, 0.04, 0.02)):
-        for _ in range(1 if quick else 4):
+        for _ in range(1 if quick else 2):
             s = [rng.random() < p for _ in range(40 + 6 * n if quick else 150 + 10 * n)]
             out.append(("random%.2f" % p, s + tail))
     out = [(name, [(b, False) for b in s]) for name, s in out]
